@@ -33,6 +33,9 @@
 #include "ref_malloc.h"
 #include "ref_migrate.h"
 #include "ref_mpi.h"
+#ifdef NASA_REFINE_VERIF
+#include "ref_verif.h"
+#endif
 
 REF_FCN static REF_STATUS ref_part_meshb_long(FILE *file, REF_INT version,
                                               REF_LONG *value) {
@@ -850,6 +853,9 @@ REF_FCN static REF_STATUS ref_part_meshb(REF_GRID *ref_grid_ptr,
     fclose(file);
   }
 
+#ifdef NASA_REFINE_VERIF
+  ref_verif_sync("part_meshb", *ref_grid_ptr);
+#endif
   return REF_SUCCESS;
 }
 
@@ -1508,6 +1514,9 @@ REF_FCN static REF_STATUS ref_part_bin_ugrid(REF_GRID *ref_grid_ptr,
   if (instrument)
     ref_mpi_stopwatch_stop(ref_grid_mpi(ref_grid), "ugrid volume");
 
+#ifdef NASA_REFINE_VERIF
+  ref_verif_sync("part_ugrid", *ref_grid_ptr);
+#endif
   return REF_SUCCESS;
 }
 
